@@ -238,6 +238,15 @@ func checkCase(c Case) (Outcome, error) {
 				total += n
 			}
 		}
+		if c.Late > 0 {
+			// the other files were applied (and committed) by an earlier run: the crashed run's transaction holds the late file only
+			total, present = c.Shape[c.Late-1], 0
+			for j := 0; j < c.Shape[c.Late-1]; j++ {
+				if mid.count[id(c.Late-1, j)] > 0 {
+					present++
+				}
+			}
+		}
 		if present != 0 && present != total {
 			return out, fmt.Errorf("after crash at point %d (%s) in tx-mode all: %d of %d statements are visible (journal %v)", c.K, crashPoint, present, total, mid.order)
 		}
